@@ -148,12 +148,9 @@ func (e *Encoder) writeObject(data interface{}) (int, error) {
 	}
 	clsName, ok := e.nameMap[typ.Name()]
 	if !ok {
+		// (the Go name is used, not entered into the name map: the map may be the caller's, and under
+		// that key a map or slice type of the same name written afterwards would be taken for a typed one)
 		clsName = typ.Name()
-		if clsName != "" {
-			// (a struct type without a name is not entered: under the key "" every unnamed
-			// map written afterwards would be taken for a typed one)
-			e.nameMap[clsName] = clsName
-		}
 	}
 	length, ok := e.existClassDef(clsName)
 	if !ok {
